@@ -666,6 +666,20 @@ def run(facts, R):
         allowed = {"websocket_server::writer_task::{closure#0}", "websocket_server::proxy_connection_with_limits::{closure#0}",
                    "websocket_client::WebSocketClient::write_request::{closure#0}", "websocket_client::close_writer::{closure#0}"}
         for b, t in sends:
+            if b.path not in allowed and getattr(b, "changed", True):
+                # a function that splits a stream it was given by value and writes to that sink half itself is the one writer of that
+                # connection (a sibling of proxy_connection_with_limits): the sink never leaves the function
+                sv = Sym(b).op(t["args"][0])
+                while sv[0] == "call" and len(sv[2]) == 1 and sv[1].rsplit("::", 1)[-1] in ("deref", "deref_mut", "as_mut", "borrow_mut"):
+                    sv = sv[2][0]
+                own = sv[0] == "field" and sv[2] == "0" and is_call(sv[1], "split") and len(sv[1]) > 3
+                if own:
+                    sink_l = [st_["place"]["l"] for _, _, st_ in b.assigns() if False]
+                    escapes = [t2["callee"]["path"] for _, t2 in b.calls() if t2["callee"]["name"] in ("spawn", "spawn_blocking", "spawn_local", "clone", "reunite")
+                               and any("SplitSink" in ty_ for ty_ in (t2.get("arg_tys") or []))]
+                    if not escapes:
+                        R.ok("one-message-per-frame", b.path, "sink writer", t.get("span"), "writes the sink half of a stream it split itself (sole writer of that connection)")
+                        continue
             R.check(b.path in allowed, "one-message-per-frame", b.path, "sink writer",
                     "a WebSocket sink is written outside the single writer task / proxy / client write_request", t.get("span"), "single writer")
         R.floor("one-message-per-frame", len(sends), 6, "sink send sites")
